@@ -1,5 +1,6 @@
 import Vata.Proofs.SimPipeline
 import Vata.Properties.C05_ReduceModel
+import Vata.Properties.RefTotal
 /-!
 # C05 – `Reduce` end to end, as coded
 
@@ -109,6 +110,17 @@ theorem C05_pipeline_size (A : TA) (hrk : TaLts.Ranked A) (B : TA) (h : reduceAs
 
 example : (reduceAsCoded TaLtsEx.exA).map (fun B => B.states) = some [0, 2] ∧ simClasses TaLtsEx.exA = 3 ∧
     (reduceRef TaLtsEx.exA).states = [0, 2] := ⟨by decide +kernel, by decide, by decide⟩
+
+/-- `Reduce` as coded against the reference the correspondence check uses: the composition returns an automaton, and for
+every fuel above the explicit bound `fuelBoundM [B, A]` the exact decider `equivM` answers `true` on it – so a `false` (or a
+missing answer) on the automaton the real `Reduce` returns is a difference between code and model -/
+theorem C05_pipeline_passes_reference (A : TA) (hrk : TaLts.Ranked A) :
+    ∃ B, reduceAsCoded A = some B ∧ ∀ fuel, fuelBoundM [B, A] ≤ fuel → equivM B A fuel = some true := by
+  obtain ⟨B, hB, hl, _⟩ := C05_pipeline A hrk
+  exact ⟨B, hB, fun fuel hf => (C05_reference_total B A fuel hf).1 hl⟩
+
+example : TaLts.Ranked TaLtsEx.exA ∧ (reduceAsCoded TaLtsEx.exA).isSome = true :=
+  ⟨TaLts.rankedB_iff.mp (by decide), by decide +kernel⟩
 
 /-!
 ## items of "not yet proved" closed here
